@@ -25,7 +25,7 @@ func (l lim) String() string { return fmt.Sprintf("(%v,%v)", l.min, l.max) }
 
 func c07(ctx *Ctx) {
 	cases := c07Cases(ctx.Level)
-	runBehaviour(ctx, behaviour{Name: "arrays", Cases: cases, Devs: c07Devs,
+	runBehaviour(ctx, behaviour{Name: "arrays", Cases: cases, Devs: c07Devs, Respell: true,
 		DocFilter: func(sc *SCase, d *refmodel.Doc, tv refmodel.Verdict) bool {
 			return !strings.Contains(d.Class, "type:") && !strings.Contains(d.Class, "extra-key")
 		}})
